@@ -188,7 +188,7 @@ def hier_case(ctx, chi, rng, i, subs=None, n_ids=None):
         return
     fd_all(ctx, hll, x, g, (TAG3 if cov_pooled else 'C03.Hierarchical.gradient_is_derivative'), inp)
     # glue: placement of the sub-models' blocks (Lean model) against the composed model's result
-    if not fixed and not bare and not cov_pooled:
+    if not fixed and not bare:
         try:
             placement(ctx, chi, subs, models, n_ids, bottom, top, cov, lls, pm, inp)
         except Exception as e:  # noqa
